@@ -19,6 +19,9 @@ pub fn common_prefix_char_size(left: &str, right: &str) -> u32 {
     let mut right_chars = right.chars();
     let mut was_escape = false;
     let mut group_level = 0;
+    // Inside a character class parentheses are literals, they do not open or close a group
+    let mut class_level = 0;
+    let mut class_start = false;
     let mut i = 0;
 
     loop {
@@ -29,11 +32,22 @@ pub fn common_prefix_char_size(left: &str, right: &str) -> u32 {
             return prefix_length;
         }
 
-        if left_char == '(' && !was_escape {
+        if class_level > 0 {
+            if left_char == '[' && !was_escape {
+                class_level += 1;
+            } else if left_char == ']' && !was_escape && !class_start {
+                class_level -= 1;
+            }
+        } else if left_char == '[' && !was_escape {
+            class_level = 1;
+        } else if left_char == '(' && !was_escape {
             group_level += 1;
         } else if left_char == ')' && !was_escape {
             group_level -= 1;
         }
+
+        // A ']' right after the opening of a class (or of a negated one) is a literal too
+        class_start = !was_escape && (left_char == '[' || (class_start && left_char == '^'));
 
         if left_char == '\\' && !was_escape {
             was_escape = true;
@@ -43,7 +57,7 @@ pub fn common_prefix_char_size(left: &str, right: &str) -> u32 {
 
         i += 1;
 
-        if group_level == 0 && !was_escape {
+        if group_level == 0 && class_level == 0 && !was_escape {
             prefix_length = i;
         }
     }
